@@ -5,6 +5,7 @@ import (
 	"fmt"
 	"math"
 	"sort"
+	"strconv"
 	"strings"
 
 	"github.com/tobgu/qframe"
@@ -322,9 +323,29 @@ func resolveFrame(w *World, d OpDesc, recv *Member, client int) *Exec {
 		for k := 0; k < nk; k++ {
 			orders = append(orders, qframe.Order{Column: anyCol(1 + k), Reverse: p(3+k)%2 == 1, NullLast: p(5+k)%2 == 1})
 		}
-		// a total order is only specified up to ties: append the id column when present so that the result is fully determined
 		ex.Desc = fmt.Sprintf("%s.Sort(%+v)", id, orders)
-		ex.Run = func() *Outcome { return frameOutcome(f.Sort(orders...), ex.Desc, client, false) }
+		ex.Run = func() *Outcome {
+			res := f.Sort(orders...)
+			out := frameOutcome(res, ex.Desc, client, true)
+			// rows that are equal on all keys may appear in any order: the
+			// result is the sequence of key tuples plus the multiset of rows
+			var o *obs.Frame
+			Atomic(func() { o = obs.Of(res) })
+			if !o.HasErr && o.Bad == "" {
+				var sb strings.Builder
+				for r := 0; r < o.Len; r++ {
+					for _, ord := range orders {
+						if col := o.Col(ord.Column); col != nil {
+							sb.WriteString(normKey(col[r]))
+							sb.WriteByte('|')
+						}
+					}
+					sb.WriteByte('\n')
+				}
+				out.Canon = "keys:" + sb.String() + "rows:" + out.Canon
+			}
+			return out
+		}
 	case "slice":
 		a, b := 0, recv.Len
 		if recv.Len > 0 {
@@ -668,10 +689,14 @@ func (w *limitedWriter) Write(p []byte) (int, error) {
 	return n, errWriterFull
 }
 
+// normKey maps cells that compare equal as keys (0 and -0, all NaNs) to one text.
 func normKey(cell string) string {
 	if strings.HasPrefix(cell, "f:") {
 		if cell == "f:8000000000000000" {
 			return "f:0"
+		}
+		if bits, err := strconv.ParseUint(cell[2:], 16, 64); err == nil && bits&0x7ff0000000000000 == 0x7ff0000000000000 && bits&0x000fffffffffffff != 0 {
+			return "f:NaN"
 		}
 	}
 	return cell
